@@ -291,6 +291,10 @@ class Harness:
                 term_ret = 'raised:' + type(e).__name__
             if st is not None:
                 st.go.set()
+        early_stream = None
+        if pers and case.get('consumer') == 'nowait':
+            # a consumer that only reads the stream: nobody has called wait()/is_alive()/terminate() on the worker yet
+            early_stream = _drain_unobserved(w, items)
         linger = 'na'
         if case.get('ending') == 'linger':
             try:
@@ -356,7 +360,9 @@ class Harness:
         obs['us_end'] = _us_end(w, marks, case)
         obs['setter'] = _setter(w)
         obs['restart_from'] = 'na'
-        if consumer is not None:
+        if early_stream is not None:
+            obs['stream'] = early_stream
+        elif consumer is not None:
             obs['stream'] = consumer.finish(w)
         else:
             obs['stream'] = _stream(w, items) if pers else {'got': [], 'end': 'na', 'again': 'na'}
@@ -597,6 +603,40 @@ class _Consumer:
         except BaseException:  # noqa
             again = 'raised'
         return {'got': list(self.got), 'end': self.end, 'again': again}
+
+
+def _drain_unobserved(w, items):
+    """results_iter() until it stops, then one more BLOCKING next_result(): both with hang bounds"""
+    box = {'got': []}
+
+    def drain():
+        try:
+            for v in w.results_iter():
+                box['got'].append(_item_of(v, len(box['got']) + 1))
+                if len(box['got']) > items + 5:
+                    break
+            box['end'] = 'ended'
+        except BaseException:  # noqa
+            box['end'] = 'raised'
+    t = threading.Thread(target=drain, daemon=True)
+    t.start()
+    t.join(10)
+    if t.is_alive():
+        return {'got': list(box['got']), 'end': 'blocked', 'again': 'na'}
+    res = {}
+
+    def again():
+        try:
+            w.next_result()
+            res['r'] = 'value'
+        except queue.Empty:
+            res['r'] = 'Empty'
+        except BaseException:  # noqa
+            res['r'] = 'raised'
+    t2 = threading.Thread(target=again, daemon=True)
+    t2.start()
+    t2.join(4)
+    return {'got': list(box['got']), 'end': box.get('end', 'ended'), 'again': res.get('r', 'blocked')}
 
 
 def _stream(w, items):
